@@ -76,3 +76,56 @@ pub proof fn lemma_entries_push<K, V>(e: Seq<(K, V)>, k: K, v: V)
         }
     }
 }
+
+// ---- tagged fields (skip_tagged_fields): written from the wire format -----------------------------------------------------
+// a run of fields `tag (a varint32, != the end marker) size payload`, closed by the end marker (-1). A tag outside the
+// varint32 range is malformed ("never accepts an out-of-range variable-width integer").
+/// `b` starts with ONE tagged field: its total length
+pub open spec fn field_len(b: Seq<u8>) -> Option<nat> {
+    match varint_dec(b) {
+        None => None,
+        Some(tw) => if tw.0 == -1 || tw.0 < -0x8000_0000 || tw.0 > 0x7fff_ffff { None } else {
+            match varuint_dec(b.skip(tw.1 as int)) {
+                None => None,
+                Some(sw) => if sw.0 > usize::MAX || b.len() < tw.1 + sw.1 + sw.0 { None } else { Some(tw.1 + sw.1 + sw.0) },
+            }
+        },
+    }
+}
+/// the first n bytes of `b` are exactly a sequence of complete tagged fields
+pub open spec fn fields_run(b: Seq<u8>, n: nat) -> bool
+    decreases n,
+{
+    n == 0 || (field_len(b) matches Some(l) && 0 < l <= n && fields_run(b.skip(l as int), (n - l) as nat))
+}
+/// what `skip_tagged_fields` may accept: fields, then the end marker; n bytes in all
+pub open spec fn skipped(b: Seq<u8>, n: nat) -> bool {
+    exists|m: nat| m <= n && #[trigger] fields_run(b, m) && varint_dec(b.skip(m as int)) == Some((-1int, (n - m) as nat))
+}
+pub proof fn lemma_fields_run_len(b: Seq<u8>, n: nat)
+    requires fields_run(b, n),
+    ensures n <= b.len(),
+    decreases n,
+{
+    if n > 0 {
+        let l0 = field_len(b)->Some_0;
+        lemma_fields_run_len(b.skip(l0 as int), (n - l0) as nat);
+    }
+}
+pub proof fn lemma_fields_run_append(b: Seq<u8>, n: nat, l: nat)
+    requires fields_run(b, n), field_len(b.skip(n as int)) == Some(l), l > 0,
+    ensures fields_run(b, n + l),
+    decreases n,
+{
+    if n == 0 {
+        assert(b.skip(0) =~= b);
+        assert(fields_run(b.skip(l as int), 0));
+    } else {
+        let l0 = field_len(b)->Some_0;
+        lemma_fields_run_len(b, n);
+        assert(l0 <= n <= b.len());
+        assert(b.skip(l0 as int).skip((n - l0) as int) =~= b.skip(n as int));
+        lemma_fields_run_append(b.skip(l0 as int), (n - l0) as nat, l);
+        assert((n + l - l0) as nat == (n - l0) as nat + l);
+    }
+}
